@@ -75,15 +75,43 @@ def taylor_coeffs(key, x0, d):
             a[deg] = (-1) ** kk / (mp.mpf(2) ** kk * mp.factorial(kk) * mp.fac2(2 * n + 2 * kk + 1))
         return [mp.fsum(a[m] * mp.binomial(m, k) * x0 ** (m - k) for m in a if m >= k) for k in range(d + 1)]
     if name == "cbrt" and x0 < 0:
-        return [(-1) ** (k + 1) * c for k, c in enumerate(mp.taylor(lambda t: mp.root(t, 3), -x0, d))]
+        return [(-1) ** (k + 1) * c for k, c in enumerate(taylor_coeffs("cbrt", -x0, d))]
     f = fn_of(key)
     old = mp.mp.dps
     mp.mp.dps = 50 + 12 * d
     try:
-        c = mp.taylor(f, x0, d)
+        f1 = first_derivative_of(key)
+        if f1 is not None and d >= 1:
+            # Numerical differentiation resolves a derivative only relative to the size of the function
+            # it differentiates: expm1(-400) = -1 + 1e-174 or atan(1e30) = pi/2 - 1e-30 hide theirs
+            # (wide bands of C01).  The first derivative is therefore taken in closed form and only
+            # *its* derivatives (which scale like the function itself) are formed numerically.
+            c = [f(x0)] + [mp.diff(f1, x0, k - 1) / mp.factorial(k) for k in range(1, d + 1)]
+        else:
+            c = mp.taylor(f, x0, d)
     finally:
         mp.mp.dps = old
     return [mp.mpf(v.real) if hasattr(v, "real") else v for v in c]
+
+
+def first_derivative_of(key):
+    name, _, par = key.partition(":")
+    if name == "log":
+        b = mp.mpf(unhex(par))
+        return lambda x: 1 / (x * mp.log(b))
+
+    def sech2(x):
+        e = mp.exp(-2 * abs(x))
+        return 4 * e / (1 + e) ** 2
+    table = {
+        "recip": lambda x: -1 / (x * x), "cbrt": lambda x: mp.power(x, -mp.mpf(2) / 3) / 3, "sqrt": lambda x: 1 / (2 * mp.sqrt(x)), "exp": mp.exp, "exp2": lambda x: mp.log(2) * mp.power(2, x),
+        "exp_m1": mp.exp, "ln": lambda x: 1 / x, "log2": lambda x: 1 / (x * mp.log(2)), "log10": lambda x: 1 / (x * mp.log(10)),
+        "ln_1p": lambda x: 1 / (1 + x), "sin": mp.cos, "cos": lambda x: -mp.sin(x), "tan": lambda x: 1 / mp.cos(x) ** 2,
+        "asin": lambda x: 1 / mp.sqrt(1 - x * x), "acos": lambda x: -1 / mp.sqrt(1 - x * x), "atan": lambda x: 1 / (1 + x * x),
+        "sinh": mp.cosh, "cosh": mp.sinh, "tanh": sech2, "asinh": lambda x: 1 / mp.sqrt(1 + x * x),
+        "acosh": lambda x: 1 / mp.sqrt(x * x - 1), "atanh": lambda x: 1 / (1 - x * x),
+    }
+    return table.get(name)
 
 
 def radius(name, x0):
